@@ -83,6 +83,22 @@ func (ex *Exec) strIntrinsic(fn *ssa.Function, name string, args []Value) (Value
 			}
 		}
 		return ex.ts.Const(64, ex.concretize(res)), true
+	case "bytes.IndexAny", "strings.IndexAny":
+		hay, set := ex.bytesOf(args[0]), ex.bytesOf(args[1])
+		for _, c := range set {
+			if !c.IsConst() || c.val >= 0x80 {
+				panic(unsupported("IndexAny with a symbolic or non-ASCII set"))
+			}
+		}
+		res := ex.ts.Const(64, ^uint64(0))
+		for s := len(hay) - 1; s >= 0; s-- {
+			in := ex.ts.F
+			for _, c := range set {
+				in = ex.ts.Or(in, ex.ts.Eq(hay[s], c))
+			}
+			res = ex.ts.Ite(in, ex.ts.Const(64, uint64(s)), res)
+		}
+		return ex.ts.Const(64, ex.concretize(res)), true
 	case "bytes.LastIndexByte":
 		hay := ex.bytesOf(args[0])
 		res := ex.ts.Const(64, ^uint64(0))
